@@ -412,6 +412,21 @@ async def collide_case(loop, out, stats, fps):
                     left = len(rig.server.d.get(b"processing", {}))
                 if left:
                     out.append(V("key_collision", kind, f"never-settled/{variant}", f"both messages with id 'same' (differing in {variant}) were acknowledged, {left} is still in flight"))
+                # the same keys are used again (a nightly job keeps its id): the new messages carry the new content
+                await mb.enqueue(k1, "one-again", P(retries=mb.PARAMETERS_CLASS().retries.__class__(max_amount=4)))
+                await mb.enqueue(k2, "two-again", P(retries=mb.PARAMETERS_CLASS().retries.__class__(max_amount=5)))
+                try:
+                    a2 = await asyncio.wait_for(c1.consume(), 5)
+                    b2 = await asyncio.wait_for(c2.consume(), 5)
+                except asyncio.TimeoutError:
+                    a2 = b2 = None
+                stats["reused_keys_after_twin_acks"] += 1
+                if a2 is None or {(a2[1], a2[2].retries.max_amount), (b2[1], b2[2].retries.max_amount)} != {("one-again", 4), ("two-again", 5)}:
+                    out.append(V("field_mismatch", kind, f"payload/reused-key-after-twin/{variant}", f"keys of two acknowledged messages with id 'same' (differing in {variant}) enqueued again with new content: received "
+                                                                                                        f"{None if a2 is None else [(a2[1], a2[2].retries.max_amount), (b2[1], b2[2].retries.max_amount)]}, expected one-again/4 and two-again/5"))
+                if a2 is not None:
+                    await mb.ack(a2[0])
+                    await mb.ack(b2[0])
                 await c1.finish()
                 if c2 is not c1:
                     await c2.finish()
